@@ -26,6 +26,7 @@ func genAll() {
 	genCursorSrc()
 	genMergeSrc()
 	genGoastImportsSrc()
+	genEntrySrc()
 	genAccess()
 	genResolveSrc()
 	genResolverSrc()
